@@ -283,7 +283,10 @@ def extra(uni, tier, seed):
 
 def replay(name, ob, model, uni):
     from realise import C29 as R
-    return R.names()
+    rp = R.names()
+    if not rp.get("confirmed") and "rename_and_write" in name:
+        rp = R.interleaved_different()
+    return rp
 
 
 def replay_known(k, uni):
